@@ -662,6 +662,10 @@ def _sym_match(self: SymInterp, s: ast.Match, st: Sym) -> Outcome:
 def _sym_stmt(self: SymInterp, s: ast.stmt, st: Sym) -> Outcome:
     if isinstance(s, ast.Match):
         return _sym_match(self, s, st)
+    if isinstance(s, ast.Return) and isinstance(s.value, ast.IfExp):
+        as_if = ast.If(test=s.value.test, body=[ast.copy_location(ast.Return(value=s.value.body), s)], orelse=[ast.copy_location(ast.Return(value=s.value.orelse), s)])
+        ast.copy_location(as_if, s)
+        return PathInterp.stmt(self, as_if, st)
     if isinstance(s, ast.Assign) and isinstance(s.value, ast.IfExp):
         # `x = a if c else b` is the two-armed if
         as_if = ast.If(test=s.value.test,
